@@ -61,6 +61,11 @@ type Engine struct {
 	OnLoop    func(e *Engine, fr *frame, l *loopInfo)
 	Unknown   []string // constructs the engine does not model (reported as undecided)
 	wrapAtoms map[string]Atom
+	rankCache map[Atom]int
+	rankLen   int
+	thrCache  map[*ssa.Function][]int64
+	// Summaries of decoder roots, used instead of inlining at interface call sites
+	Summaries map[*ssa.Function]*FnSummary
 	isCell    map[Atom]bool
 	snapAtoms map[string]Atom
 	objType   map[string]string // abstract object -> named type of its content
@@ -69,6 +74,7 @@ type Engine struct {
 	SpareOnReflectSet map[string]bool
 	ReflectSets       int
 	wrapDeps          map[Atom][]Atom // base atom -> wrap atoms whose defining expression mentions it
+	wrapOf            map[Atom][]Atom // wrap atom -> atoms of its defining expression
 	ReflectRule       func(e *Engine, fr *frame, st *State, in *ssa.Call, name string)
 }
 
@@ -76,7 +82,7 @@ func NewEngine(pkg *ssa.Package, cg *callgraph.Graph) *Engine {
 	e := &Engine{Pkg: pkg, CG: cg, valAtom: map[ssa.Value]Atom{}, lenAtoms: map[ssa.Value]Atom{}, cellAtom: map[string]Atom{},
 		tupAtom: map[string]Atom{}, temps: map[int]Atom{}, vids: map[ssa.Value]int{}, Obls: map[string]*Obl{}, MaxDepth: 6,
 		callees: map[ssa.CallInstruction][]*ssa.Function{}, MaxSteps: 40000000, Externals: map[string]int{}, Universe: map[*ssa.Function]bool{},
-		ordinals: map[*ssa.Function]map[ssa.Instruction]int{}, objType: map[string]string{}, SpareOnReflectSet: map[string]bool{}, isCell: map[Atom]bool{}, snapAtoms: map[string]Atom{}}
+		ordinals: map[*ssa.Function]map[ssa.Instruction]int{}, objType: map[string]string{}, SpareOnReflectSet: map[string]bool{}, isCell: map[Atom]bool{}, snapAtoms: map[string]Atom{}, Summaries: map[*ssa.Function]*FnSummary{}}
 	if cg != nil {
 		for _, n := range cg.Nodes {
 			for _, ed := range n.Out {
@@ -108,6 +114,8 @@ func (e *Engine) wrapAtomOf(key string, r Range, sv Lin) Atom {
 	if e.wrapAtoms == nil {
 		e.wrapAtoms = map[string]Atom{}
 		e.wrapDeps = map[Atom][]Atom{}
+		e.wrapOf = map[Atom][]Atom{}
+		e.wrapOf = map[Atom][]Atom{}
 	}
 	if a, ok := e.wrapAtoms[key]; ok {
 		return a
@@ -116,8 +124,46 @@ func (e *Engine) wrapAtomOf(key string, r Range, sv Lin) Atom {
 	e.wrapAtoms[key] = a
 	for _, t := range sv.T {
 		e.wrapDeps[t.A] = append(e.wrapDeps[t.A], a)
+		e.wrapOf[a] = append(e.wrapOf[a], t.A)
+		e.wrapOf[a] = append(e.wrapOf[a], t.A)
 	}
 	return a
+}
+
+// atomRank orders atoms by expected lifetime: 0 temporaries and SSA registers,
+// 1 ghost snapshots / hash-consed values, 2 memory cells, 3 parameters.
+func (e *Engine) atomRank(a Atom) int {
+	if e.rankCache == nil {
+		e.rankCache = map[Atom]int{}
+	}
+	if r, ok := e.rankCache[a]; ok && e.rankLen == len(e.atoms) {
+		return r
+	}
+	if e.rankLen != len(e.atoms) {
+		e.rankCache = map[Atom]int{}
+		e.rankLen = len(e.atoms)
+		owner := e.atomOwner()
+		for at, v := range owner {
+			if _, isParam := v.(*ssa.Parameter); isParam {
+				e.rankCache[at] = 3
+			} else {
+				e.rankCache[at] = 0
+			}
+		}
+		for _, at := range e.cellAtom {
+			e.rankCache[at] = 2
+		}
+		for _, at := range e.snapAtoms {
+			e.rankCache[at] = 1
+		}
+		for _, at := range e.wrapAtoms {
+			e.rankCache[at] = 1
+		}
+		for _, at := range e.tupAtom {
+			e.rankCache[at] = 0
+		}
+	}
+	return e.rankCache[a]
 }
 
 func (e *Engine) nextVer() int64 { e.ver++; return e.ver }
@@ -383,4 +429,13 @@ func (e *Engine) SortedObls() []*Obl {
 		out = append(out, e.Obls[k])
 	}
 	return out
+}
+
+// FnSummary is the conditional summary of a decoder analysed as a root with an
+// unconstrained input and a zero receiver: "returns nil => len(param k) >= MinLenOnNil".
+type FnSummary struct {
+	Fn          *ssa.Function
+	SliceParam  int   // index in Params of the []byte parameter
+	MinLenOnNil int64 // -1: may return nil for any length; else proven lower bound
+	NilPossible bool  // some return may yield a nil error
 }
